@@ -46,8 +46,9 @@ CONTRACTS = {
                               '(self.model.proj_lower_quotas[j] <= proj_num_allocations[j] and proj_num_allocations[j] <= self.model.proj_upper_quotas[j]))']),
            4: dict(invariant=['forall(k, 0, _k, self.model.lec_lower_quotas[k] <= lec_num_allocations[k] and lec_num_allocations[k] <= self.model.lec_upper_quotas[k])'])},
     returns='bool',
-    ensures=[('valid-iff-every-project-found-and-quotas-respected',
-              'result == (forall(q, 0, len(matching_pairs), matching_pairs[q] != None) and valid_list(self.model, matching_pairs, self.instance_options[Instance_options.PC]))')]),
+    defs={'QUOTAS': (['L'], 'valid_list(self.model, L, self.instance_options[Instance_options.PC])', 'opaque')},
+    ensures=[('valid-iff-every-project-found-and-quotas-respected', 'result == (all_found(matching_pairs) and QUOTAS(matching_pairs))'),
+             ]),
 
  # run: fold over the enumeration E[0..N) (T11).  rec('valid')[u] / rec('size')[u] are the specification-level validity and
  # size of the u-th enumerated assignment (ghost history).
@@ -56,13 +57,16 @@ CONTRACTS = {
  M + 'run': dict(
     requires=['sizes_ok(self.model)', 'pairs_ok(self.model)', 'self.model.num_lecturers >= 1'],
     defs={'PC': ([], 'self.instance_options[Instance_options.PC]'),
+          # the validity predicate of is_valid's contract, kept folded (an atom) in the fold invariants
+          'QUOTAS': (['L'], 'valid_list(self.model, L, self.instance_options[Instance_options.PC])', 'opaque'),
+          'VALID': (['L'], 'all_found(L) and QUOTAS(L)'),
           'V': (['u'], "rec('valid')[u]"), 'TOP': (['u'], "rec('valid')[u] and rec('size')[u] == self.optimal_size"),
           'lexlt': (['a0', 'a1', 'b0', 'b1'], 'a0 < b0 or (a0 == b0 and a1 < b1)'),
           'mp': ([], 'matching_pairs'),
           'devk': (['L', 'k'], 'abs(loadL_upto(L, k, len(L)) - self.model.lec_targets[k])')},
-    merge_ifs=True,
+    merge_ifs=True, sealed=('QUOTAS',),        # validity is an atom here; its meaning is is_valid's postcondition
     loops={0: dict(
-        record={'valid': ('bool', 'all_found(matching_pairs) and valid_list(self.model, matching_pairs, PC())'),
+        record={'valid': ('bool', 'VALID(matching_pairs)'),
                 'size': ('int', 'len(matching_pairs)'),
                 # the statistics computed by the (contracted) helpers for this assignment; only meaningful where valid
                 'c0': ('int', 'cost[0]'), 'c1': ('int', 'cost[1]'), 's0': ('int', 'costsq[0]'), 's1': ('int', 'costsq[1]'),
